@@ -1038,6 +1038,12 @@ class Ctx:
                 pass
         for (a, t), v in zip(fn.args, args):
             frame[a] = v
+        for loc, ty in fn.locals.items():
+            # a capture-free closure is zero-sized: MIR never assigns its local, it only borrows it
+            if isinstance(ty, str) and ty.startswith('{closure@'):
+                cm = re.match(r'^\{closure@([^}]*)\}$', ty.strip())
+                if cm and loc not in frame:
+                    frame[loc] = Closure(cm.group(1), Agg([]))
         blocks = fn.blocks()
         bb = 'bb0'; visits = {}
         bound = self.unwind_bound(fn)
